@@ -97,11 +97,12 @@ def jaqal_import(
 
     module = sys.modules.get(mod_name)
 
+    forgotten = {}
     if module and reload_module:
         if full_reload:
-            del sys.modules[mod_name]
+            forgotten[mod_name] = sys.modules.pop(mod_name)
             for k in [k for k in sys.modules.keys() if k.startswith(f"{mod_name}.")]:
-                del sys.modules[k]
+                forgotten[k] = sys.modules.pop(k)
             module = None
         elif relative:
             module = None
@@ -110,7 +111,15 @@ def jaqal_import(
 
     if module is None:
         if relative:
-            module = _jaqal_import_module_relative(mod_name, import_path)
+            try:
+                module = _jaqal_import_module_relative(mod_name, import_path)
+            except ImportError:
+                # Nothing was loaded in their place: the modules forgotten for
+                # the reload (possibly unrelated ones that merely share the
+                # name, e.g. `from .numpy usepulses *`) stay loaded.
+                for k, v in forgotten.items():
+                    sys.modules.setdefault(k, v)
+                raise
         else:
             module = importlib.import_module(mod_name)
 
